@@ -101,8 +101,10 @@ def do_show(ctx, w, clock, text, extra_argv=(), state=None):
 
 class Life:
     def __init__(self, focus, quick, thorough, mode="plain", allow_mixed=True, sv_rate=0.1, vcs="maybe", family=None,
-                 nmax=6, dry_rate=0.2, pep_any=False, force_pep=False, zero_bid=False, grep_pep=False, twin_pair=False):
+                 nmax=6, dry_rate=0.2, pep_any=False, force_pep=False, zero_bid=False, grep_pep=False, twin_pair=False,
+                 invalid_utf8=False):
         self.twin_pair = twin_pair
+        self.invalid_utf8 = invalid_utf8
         self.focus = focus
         self.name = "LIFE/" + focus
         self._quick, self._thorough = quick, thorough
@@ -127,7 +129,7 @@ class Life:
         mode = self.mode if self.mode != "mix" else ("bytes" if rng.random() < 0.3 else "plain")
         project = layouts.gen_project(rng, mode=mode, allow_mixed=self.allow_mixed, vcs=vcs, family=self.family,
                                       pep_any=self.pep_any, force_pep=self.force_pep, zero_bid=self.zero_bid,
-                                      legacy=(self.family == "legacy"), twin_pair=self.twin_pair)
+                                      legacy=(self.family == "legacy"), twin_pair=self.twin_pair, invalid_utf8=self.invalid_utf8)
         if project["vcs"] is not None:
             # quoting of odd paths at the VCS seam is C12's subject; keep this campaign's failures version-caused
             if any(ch in f["path"] for f in project["files"] for ch in " '\"") or \
@@ -290,6 +292,12 @@ class Life:
                 # no claim for this state)
                 ctx.count("twin_pair_refused")
                 ctx.probe("twin_pair_refused")
+                continue
+            if project.get("invalid_utf8") and res.exit_code != 0 and not res.changed and "UnicodeDecodeError" in (res.exc or ""):
+                # a configured file is not valid UTF-8: bumpver refuses to touch the project (by design; what must not happen is
+                # an update that goes through and leaves that file behind - then the walker below speaks)
+                ctx.count("undecodable_file_refused")
+                ctx.probe("undecodable_file_refused")
                 continue
             if op.get("dry") and res.changed:
                 ctx.violation("C13", "dry_changed_files", base_facts, "`update --dry` changed files (argv %s)" % argv)
